@@ -677,6 +677,38 @@ def check(case):
                 d = _diff_state(_state(est2), st_fit, e.get("loose", ()))
                 if d:
                     r.fail("same-inputs-different-state", "%s: %s" % (name, "; ".join(d)[:300]))
+        # integer-typed arguments must behave like the same values passed as floats
+        # (X_orthogonalizer keeps the dtype of its input by design - `.astype(xnew.dtype)` - and is not compared)
+        if not r.violations and any(v == "int" for v in lay.values()) and not name.startswith("X_orthogonalizer"):
+            def as_float(v):
+                if isinstance(v, list):
+                    return [x.astype(float) if isinstance(x, np.ndarray) and x.dtype.kind in "iu" else x for x in v]
+                return v.astype(float) if isinstance(v, np.ndarray) and v.dtype.kind in "iu" else v
+            def dup(v):
+                if isinstance(v, np.ndarray):
+                    return v.copy()
+                if isinstance(v, list):
+                    return [x.copy() if isinstance(x, np.ndarray) else x for x in v]
+                return v
+            af = {k: (as_float(v) if lay.get(k) == "int" else dup(v)) for k, v in a.items()}
+            try:
+                if "func" in e:
+                    oi, of = _plain(e["func"](a)), _plain(e["func"](af))
+                    if not _close(oi, of, 1e-9):
+                        r.fail("integer-dtype-changes-the-result:%s" % name.split("/")[0], "%s: integer-typed %s vs the same values as float" % (name, [k for k, v in lay.items() if v == "int"]))
+                else:
+                    ei = e["fit"](e["make"](a), a)
+                    ef = e["fit"](e["make"](af), af)
+                    for mname, fn in e["methods"]:
+                        if mname == "sample":
+                            continue
+                        oi, of = _plain(fn(ei, a)), _plain(fn(ef, af))
+                        if not _close(oi, of, 1e-8):
+                            r.fail("integer-dtype-changes-the-result:%s" % name.split("/")[0], "%s.%s: integer-typed %s vs the same values as float" % (name, mname, [k for k, v in lay.items() if v == "int"]))
+                            break
+                r.transitions += 2
+            except Exception as ex:
+                r.fail("integer-dtype-differential-crash:%s" % type(ex).__name__, "%s: %r" % (name, ex))
         r.nontrivial = any(v != "C" for v in lay.values())
         return _finish(r, case)
 
